@@ -250,19 +250,22 @@ def body_perms(cfg, *ls):
             a = selection(SortByClassWrapper(ds))
         else:
             a = selection(IntraClassShuffleWrapper(ds, seed=seed))
-        np.random.seed(2)
-        torch.manual_seed(2)
-        if which == "shuffle":
-            b = selection(ShuffleWrapper(ds, seed=seed))
-        elif which == "sort":
-            b = selection(SortByClassWrapper(ds))
-        else:
-            b = selection(IntraClassShuffleWrapper(ds, seed=seed))
+        same = True
+        for g in (2, 3, 5):  # several other global RNG states
+            np.random.seed(g)
+            torch.manual_seed(g)
+            if which == "shuffle":
+                b = selection(ShuffleWrapper(ds, seed=seed))
+            elif which == "sort":
+                b = selection(SortByClassWrapper(ds))
+            else:
+                b = selection(IntraClassShuffleWrapper(ds, seed=seed))
+            same = same and a == b
     except Exception as ex:
         return fail("exception " + type(ex).__name__)
     if not is_perm(a, L):
         return fail(which + " is not a permutation")
-    if a != b:
+    if not same:
         return fail("selection depends on global RNG state, not only on the seed")
     if which == "sort":
         key = [(cls[i], i) for i in a]
@@ -433,6 +436,14 @@ def conditions(tier, rng):
         allp = list(itertools.product(range(3), repeat=L - 1))
         prefixes += allp if (not q or len(allp) <= 3) else rng.sample(allp, 4)
     lp, lpre = [("l", "int")], ["0 <= l < 3"]
+    # longer layouts for the two seeded shuffles (a 5-element shuffle under the global RNG differs
+    # between global states with overwhelming probability, a 2-element one often does not)
+    for pf in ((0, 1, 2, 0), (1, 1, 0, 2, 0)):
+        tag = "".join(map(str, pf)) + "?"
+        for seed in seeds:
+            for which in ("shuffle", "intra"):
+                conds.append(Cond(name=f"permutations[{which};{tag};absent=0;seed={seed}]", harness=H, body="body_perms", cfg=(pf, 0, seed, which),
+                                  params=lp, pre=lpre, timeout=to, group="shuffle-sort-intraclass", cost=6, bounds="label prefix and seed enumerated, last label symbolic"))
     for pf in prefixes:
         tag = "".join(map(str, pf)) + "?"
         for invert in (False, True):
